@@ -803,17 +803,19 @@ fn ops(m: &Model, ctx: &mut Ctx) {
         };
         let element = |e: Val| Val::Ctor("Element".into(), vec![e], BTreeMap::new());
         let from = |e: Val| Val::Ctor("PermittedAlphabet".into(), vec![element(e)], BTreeMap::new());
-        let cases: Vec<(&str, &str, Val, bool)> = vec![
-            ("single-value", "IA5String (\"abc\")", sv("abc"), false),
-            ("value-range", "IA5String (\"a\"..\"c\")", vr("a", "c"), false),
-            ("from-single-value", "IA5String (FROM (\"abc\"))", from(sv("abc")), true),
-            ("from-value-range", "IA5String (FROM (\"a\"..\"c\"))", from(vr("a", "c")), true),
+        let cases: Vec<(&str, &str, Val, bool, bool)> = vec![
+            ("single-value", "IA5String (\"abc\")", sv("abc"), false, false),
+            ("value-range", "IA5String (\"a\"..\"c\")", vr("a", "c"), false, false),
+            ("from-single-value", "IA5String (FROM (\"abc\"))", from(sv("abc")), false, true),
+            ("from-value-range", "IA5String (FROM (\"a\"..\"c\"))", from(vr("a", "c")), false, true),
+            // an alphabet that can be extended is not PER-visible: the marker behind the FROM constraint counts like the one inside it
+            ("extensible-from", "IA5String (FROM (\"a\"..\"c\"), ...)", from(vr("a", "c")), true, false),
         ];
-        for (k, what, elem, want_some) in cases {
+        for (k, what, elem, outer_extensible, want_some) in cases {
             ctx.oblige("C15.top", k, true);
             let mut spec = BTreeMap::new();
             spec.insert("set".to_string(), element(elem));
-            spec.insert("extensible".to_string(), Val::Bool(false));
+            spec.insert("extensible".to_string(), Val::Bool(outer_extensible));
             let c = Val::Ctor("Subtype".into(), vec![Val::Ctor("ElementSetSpecs".into(), vec![], spec)], BTreeMap::new());
             let mut env = Env::new();
             env.insert(params.first().cloned().unwrap_or("constraint".into()), c);
@@ -821,7 +823,10 @@ fn ops(m: &Model, ctx: &mut Ctx) {
             match ev2.eval_fn_body(&tn.block, &mut env) {
                 Ok(Val::Ctor(ok, p, _)) if ok == "Ok" => {
                     let is_some = matches!(p.first(), Some(Val::Ctor(s, _, _)) if s == "Some");
-                    if is_some != want_some {
+                    if is_some != want_some && outer_extensible {
+                        ctx.violate("C15.top", "extensible-alphabet", &tn.file, tn.line,
+                            &format!("try_new: `{}` yields a permitted alphabet: with the extension marker any character may follow in a later version, the constraint is not PER-visible and the annotation `from(\"a..=c\")` (not extensible) denotes fewer characters than the type allows", what));
+                    } else if is_some != want_some {
                         ctx.violate("C15.top", &format!("alphabet-without-FROM:{}", k), &tn.file, tn.line,
                             &format!("try_new: `{}` {} a permitted alphabet; only FROM constraints (and contained string subtypes) restrict the alphabet — a value constraint is not PER-visible for a known-multiplier string, and an alphabet derived from it changes the PER character width", what, if is_some { "yields" } else { "does not yield" }));
                     }
